@@ -28,10 +28,6 @@ theorem srcBranches_eq : ∀ (ds : List BrD), srcBranches ds = srcOfSyn (ds.map 
   | [] => rfl
   | d :: r => by simp [srcBranches, srcOfSyn, BrD.syn, srcBranches_eq r]
 
-inductive All2 {α β : Type} (R : α → β → Prop) : List α → List β → Prop where
-  | nil : All2 R [] []
-  | cons {a : α} {b : β} {as : List α} {bs : List β} : R a b → All2 R as bs → All2 R (a :: as) (b :: bs)
-
 /-- an elseif after step 2 -/
 def EarlyOK (cx : Cx) (fuel : Nat) (E : Nat) (s0 : St) (env : Src.Env) (sA : St) (y : ESyn) (a : ElifA) : Prop :=
   a.neg = y.neg ∧ HdrsOK y.hs ∧ NamesOf y.hs a.bps ∧ (∀ b ∈ a.bps, b.positive = !y.neg) ∧
@@ -46,10 +42,6 @@ theorem EarlyOK.mono {cx : Cx} {fuel E : Nat} {s0 : St} {env : Src.Env} {sA sA' 
   refine ⟨h1, h2, h3, h4, fun hn => ?_, h6⟩
   obtain ⟨blk, sB, a1, a2, a3⟩ := h5 hn
   exact ⟨blk, sB, a1, a2.trans hle, a3⟩
-
-theorem All2.imp {α β : Type} {R R' : α → β → Prop} (hi : ∀ a b, R a b → R' a b) : ∀ {as : List α} {bs : List β}, All2 R as bs → All2 R' as bs
-  | _, _, .nil => .nil
-  | _, _, .cons h r => .cons (hi _ _ h) (All2.imp hi r)
 
 def EAC (cx : Cx) (fuel : Nat) (env : Src.Env) (ys : List ESyn) (elifsA : M (List ElifA)) : Prop :=
   ∀ E s0 s as s', SameStk s0 s → elifsA s = .ok (as, s') → SameStk s s' ∧ All2 (EarlyOK cx fuel E s0 env s') ys as
